@@ -268,6 +268,28 @@ def r7_3(ctx: Ctx) -> None:
         ctx.record("R7.3", ctx.key(fn, "bounds test admits exactly the valid indices"), fn.loc(), not bad,
                    f"positions -1, 0, {length - 1}, {length}, {length + 1} (list length {length} = {unparse(size_expr)} with max_acl_rules={M})"
                    if not bad else "an out-of-range position reaches the list store (IndexError) or a valid one is refused", bad)
+        if mname == "add_rule":
+            # adding over an occupied slot *replaces* the rule: the slot receives a rule object built from all the arguments of this
+            # call (unspecified ones = None = match anything); the old object is not edited field by field
+            ldf = LocalDefs(fn.node)
+            fields = [a.arg for a in fn.node.args.args[1:] + fn.node.args.kwonlyargs if a.arg != "position"]
+            v = ldf.expand(stores[0].ast.value)
+            built = isinstance(v, ast.Call) and call_name(v) == "ACLRule" and all(
+                any(k.arg == fld and any(isinstance(x, ast.Name) and x.id == fld for x in ast.walk(k.value)) for k in v.keywords) for fld in fields)
+            ctx.record("R7.3", ctx.key(fn, "the slot receives a rule built from all arguments of the call"), fn.loc(stores[0].ast), built,
+                       f"self._acl[position] = {unparse(v)[:80]}" if built else
+                       f"the stored value `{unparse(v)[:80]}` is not an ACLRule built from every argument ({fields})")
+            # occupied slot: the store is still reached for every valid position
+            ev = Evaluator({"position": 0, "self.max_acl_rules": M, "len(self._acl)": length, "self._acl[position]": "OLD"}, ldf)
+            out, node, _tr = walk(g, ev)
+            reached_occ = stores[0].id in getattr(ev, "visited", [])
+            edits = [f"line {x.lineno}: {unparse(x)[:60]}" for x in ast.walk(fn.node) if (isinstance(x, ast.Call) and isinstance(x.func, ast.Name) and x.func.id == "setattr")
+                     or (isinstance(x, (ast.Assign, ast.AugAssign)) and any(isinstance(t, ast.Attribute) and not (isinstance(t.value, ast.Name) and t.value.id == "self")
+                                                                            for t in (x.targets if isinstance(x, ast.Assign) else [x.target])))]
+            ctx.record("R7.3", ctx.key(fn, "an occupied position is overwritten, not merged"), fn.loc(), reached_occ and not edits,
+                       "with the slot occupied the same store is reached and no existing rule object is edited" if reached_occ and not edits else
+                       "adding a rule at an occupied position does not replace the rule: criteria of the old rule survive (a field the new rule "
+                       "leaves unspecified keeps the old value), so later verdicts follow a rule nobody declared", edits[:3])
 
 
 def r7_4(ctx: Ctx) -> None:
